@@ -414,6 +414,22 @@ theorem pending_is_voted {η : Type} [DecidableEq η] (H : Str → η) (le : η 
   obtain ⟨hn, e, he, hec⟩ := (pendInv_run attestTrySites (fun c => H c.path) le ops {} pendInv_init).1 p hp
   exact ⟨hn, e, he, hec, fun v hv => hec ▸ executed_is_voted H le ops valid collisionFree e he v hv⟩
 
+/-- `TryAttestation` also records the external block height of the claim object it is handed
+(`SetLastObservedBlockHeight(claim.GetBlockHeight())`): after every history, the recorded height is the one EVERY tallied
+voter of the last observed attestation reported -/
+theorem observed_height_is_voted {η : Type} [DecidableEq η] (H : Str → η) (le : η → η → Bool) (ops : List Op)
+    (valid : ∀ c ∈ Op.claims ops, ∃ k, c.valid k = true)
+    (collisionFree : ∀ c₁ ∈ Op.claims ops, ∀ c₂ ∈ Op.claims ops, H c₁.path = H c₂.path → c₁.path = c₂.path) :
+    ∀ e, (run (fun c => H c.path) le {} ops).executed.getLast? = some e →
+      (run (fun c => H c.path) le {} ops).lastHeight = e.claim.blockHeight
+      ∧ ∀ v ∈ e.tallied, v.2.blockHeight = (run (fun c => H c.path) le {} ops).lastHeight := by
+  intro e he
+  have h1 : (run (fun c => H c.path) le {} ops).lastHeight = e.claim.blockHeight :=
+    heightInv_run attestTrySites (fun c => H c.path) le ops {} heightInv_init e he
+  refine ⟨h1, fun v hv => ?_⟩
+  rw [h1]
+  exact effect_blockHeight (executed_is_voted H le ops valid collisionFree e (List.mem_of_getLast? he) v hv)
+
 /-- with an injective hash (the path itself as the key) no assumption is left -/
 theorem executed_is_voted_ideal (le : Str → Str → Bool) (ops : List Op) (valid : ∀ c ∈ Op.claims ops, ∃ k, c.valid k = true) :
     ∀ e ∈ (run (fun c => c.path) le {} ops).executed, ∀ v ∈ e.tallied, v.2.effect = e.claim.effect :=
@@ -777,6 +793,11 @@ example : ((run (fun c => c.path) (fun _ _ => true) {} (legacyOps ++ [.vote 2 (.
 /-- … is stored for `ExecuteClaim`, which then runs exactly that claim -/
 example : (run (fun c => c.path) (fun _ _ => true) {} (legacyOps ++ [.vote 2 (.bc wCall) false])).pending.map (·.1) = [1] := by decide +kernel
 example : (run (fun c => c.path) (fun _ _ => true) {} (legacyOps ++ [.vote 2 (.bc wCall) false, .execute 1 false])).ran = [.bc wCall] := by
+  decide +kernel
+
+/-- the recorded height after the three votes of `legacyOps` + oracle 2 is the voted one -/
+example : (run (fun c => c.path) (fun _ _ => true) {} (legacyOps ++ [.vote 2 (.bc wCall) false])).lastHeight = 1
+    ∧ (run (fun c => c.path) (fun _ _ => true) {} (legacyOps ++ [.vote 2 (.bc { wCall with BlockHeight := 7 }) false])).lastHeight = 0 := by
   decide +kernel
 
 end FxVerif.Props.C03
